@@ -74,6 +74,14 @@ def stepFull (l : Link) : Action → Link × StepOut
   | .xSuspend => exchDo l l.ex.suspend
   | .xResume => exchDo l l.ex.resume
 
+/-- a client builder action whose overridden hook misbehaves (correspondence only; not part of `run`) -/
+def stepHook (l : Link) (a : Action) (h : Hook) : Link × StepOut :=
+  match a with
+  | .cNew => clientBuild l (newReqH l.order h)
+  | .cCancel => clientBuild l (cancelReqH l.order h)
+  | .cReplace p q => clientBuild l (replaceReqH l.order p q h)
+  | a => stepFull l a
+
 def step (l : Link) (a : Action) : Link := (stepFull l a).1
 
 def run (l : Link) : List Action → Link
